@@ -52,7 +52,11 @@ func asmfloat(x float64, bits int) string {
 type String string
 
 // Asm returns an assembly syntax representation of the string s.
-func (s String) Asm() string { return fmt.Sprintf("$%q", s) }
+//
+// Non-ASCII characters are escaped: the assembler's lexer replaces the middle
+// dot (U+00B7) and division slash (U+2215) characters by '.' and '/' in every
+// token, including string literals.
+func (s String) Asm() string { return fmt.Sprintf("$%+q", s) }
 
 // Bytes returns the length of s.
 func (s String) Bytes() int { return len(s) }
